@@ -32,9 +32,34 @@ func raceLogInit() {
 }
 
 type raceReport struct {
-	tops   []string // innermost frame outside the Go runtime of each of the two accesses, "func file:line"
+	tops   []string   // innermost frame outside the Go runtime of each of the two accesses, "func file:line"
+	stacks [][]string // function names of the two access stacks, innermost first
 	isMap  bool
 	relay2 bool // both accesses are made by relay code
+}
+
+// a runtime table change on one side, the dispatch path on the other (C18)
+var (
+	reChangeFn   = regexp.MustCompile(`table\.\(\*Table\)\.(Add|Del|Update)|imperatives\.Apply`)
+	reDispatchFn = regexp.MustCompile(`\)\.Dispatch(Aggregate)?\(\)$`)
+)
+
+func hasFrame(stack []string, re *regexp.Regexp) bool {
+	for _, f := range stack {
+		if re.MatchString(f) {
+			return true
+		}
+	}
+	return false
+}
+
+func (r *raceReport) changeVsDispatch() bool {
+	if len(r.stacks) != 2 {
+		return false
+	}
+	a, b := r.stacks[0], r.stacks[1]
+	return (hasFrame(a, reChangeFn) && !hasFrame(a, reDispatchFn) && hasFrame(b, reDispatchFn)) ||
+		(hasFrame(b, reChangeFn) && !hasFrame(b, reDispatchFn) && hasFrame(a, reDispatchFn))
 }
 
 var (
@@ -60,6 +85,13 @@ func parseRaceReports(txt string) []raceReport {
 			n++
 			lines := strings.Split(sec, "\n")
 			top := ""
+			var stack []string
+			for i := 1; i < len(lines); i++ {
+				if fn := strings.TrimSpace(lines[i]); strings.HasSuffix(fn, ")") && !strings.Contains(fn, " ") {
+					stack = append(stack, fn)
+				}
+			}
+			r.stacks = append(r.stacks, stack)
 			first := 1
 			if strings.HasPrefix(lines[0], "WARNING") {
 				first = 2 // the first access of a report follows the banner line
@@ -95,6 +127,7 @@ func parseRaceReports(txt string) []raceReport {
 			sort.Strings(r.tops)
 			out = append(out, r)
 		}
+		_ = n
 	}
 	return out
 }
@@ -118,6 +151,16 @@ func harvestRaces(o *Outcome) {
 			continue
 		}
 		desc := strings.Join(r.tops, "  <->  ")
+		if !r.isMap && o.Case.Prop == "C18" && r.changeVsDispatch() {
+			// a table change writes memory the dispatch path reads (or the reverse) and nothing orders the two: the metric can
+			// be processed against a half-applied change (torn multi-word values, some fields old and some new)
+			o.Probes["race.relay_change_vs_dispatch"]++
+			if o.Class == "" {
+				o.Class = "C18:unsynchronised-change"
+				o.Msg = "a runtime table change and the dispatch path access the same memory without synchronisation, so a metric can be processed against a half-applied change: " + desc + " (line numbers are those of the instrumented copy)"
+			}
+			continue
+		}
 		if !r.isMap {
 			o.Probes["race.relay_other(not judged): "+desc]++
 			continue
